@@ -257,6 +257,9 @@ def run_corpus_entry(ctx, rec, spec=None):
                               dict(kind="row", gate=rec["gate"], ids=rec["ids"], hw=rec["hw"], n=rec.get("n"), d=rec.get("d"),
                                    emitted=r["ops"], **bad), key=row_key(r))
         return failed
+    if rec["kind"] == "history":
+        import nv_decomp as nd
+        return hist_case(ctx, nd.load(ctx.repo), rec["steps"], rec["hw"], rec["psi_seed"])
     if rec["kind"] == "matrix":
         from netqasm.lang.instr import core, nv, vanilla
         spec = spec or spec_tables(ctx)
@@ -285,6 +288,164 @@ def corpus(ctx, spec):
                 n += 1
     ctx.coverage["corpus_entries_replayed"] = n
 
+
+
+# ------------------------------------------------------------------ gates inside a subroutine history
+HIST_NQ = 3     # virtual ids 0 (electron), 1, 2 (carbons)
+
+
+def _hist_channel(rho, kind, wires, M=None):
+    if kind == "u":
+        U = qc.embed(HIST_NQ, wires, M)
+        return U @ rho @ U.conj().T
+    if kind == "init":   # reset channel
+        k0 = qc.embed(HIST_NQ, wires, np.array([[1, 0], [0, 0]], dtype=complex))
+        k1 = qc.embed(HIST_NQ, wires, np.array([[0, 1], [0, 0]], dtype=complex))
+        return k0 @ rho @ k0.conj().T + k1 @ rho @ k1.conj().T
+    raise ValueError(kind)
+
+
+# content of a qubit after qalloc is unspecified (it may be about to receive half of a pair): the SAME fixed
+# non-trivial unitary is applied in the original and in the transpiled run, which is one admissible content
+_UNSPEC = qc.rot_nd("y", 5, 4) @ qc.rot_nd("z", 3, 4)
+
+
+def hist_steps(rng, n):
+    """A history: list of steps over virtual ids 0..2; every step re-sets the registers it uses."""
+    g1 = ["X", "Y", "Z", "H", "K", "S", "T"]
+    steps = []
+    for _ in range(n):
+        k = rng.choice(["g1", "g2", "g2", "cc", "cc", "rot", "init_e", "realloc_e", "init_e+realloc_e"])
+        if k == "g1":
+            steps.append(["g1", rng.choice(g1), rng.randrange(HIST_NQ)])
+        elif k == "rot":
+            steps.append(["rot", rng.choice(AX), rng.randrange(HIST_NQ), rng.randrange(1, 32), rng.randrange(0, 5)])
+        elif k == "g2":
+            a, b = rng.sample(range(HIST_NQ), 2)
+            steps.append(["g2", rng.choice(["CNOT", "CPHASE"]), a, b])
+        elif k == "cc":
+            a, b = rng.sample([1, 2], 2)
+            steps.append(["g2", rng.choice(["CNOT", "CPHASE"]), a, b])
+        elif k == "init_e":
+            steps.append(["init", 0])
+        elif k == "realloc_e":
+            steps.append(["realloc", 0])
+        else:
+            steps.append(["init", 0]); steps.append(["realloc", 0])
+    return steps
+
+
+def hist_instrs(ns, steps):
+    ra, rb = ns.Register(ns.RegisterName.Q, 5), ns.Register(ns.RegisterName.Q, 6)
+
+    def sset(r, v):
+        return ns.core.SetInstruction(reg=r, imm=ns.Immediate(v))
+    out = []
+    for st in steps:
+        if st[0] == "g1":
+            out += [sset(ra, st[2]), ns.g1[st[1]](reg=ra)]
+        elif st[0] == "rot":
+            out += [sset(ra, st[2]), ns.rot[st[1]](reg=ra, imm0=ns.Immediate(st[3]), imm1=ns.Immediate(st[4]))]
+        elif st[0] == "g2":
+            out += [sset(ra, st[2]), sset(rb, st[3]), ns.g2[st[1]](reg0=ra, reg1=rb)]
+        elif st[0] == "init":
+            out += [sset(ra, st[1]), ns.core.InitInstruction(reg=ra)]
+        elif st[0] == "realloc":
+            out += [sset(ra, st[1]), ns.core.QFreeInstruction(reg=ra), ns.core.QAllocInstruction(reg=ra)]
+    return out
+
+
+def hist_run(ns, instrs, rho, spec_side):
+    """Density-matrix run.  spec_side: vanilla gates by the SPEC matrices of qcommon; otherwise the NV
+    instructions by the SPEC rot/crot matrices.  Returns rho or a string naming an instruction not understood."""
+    regs = {}
+    for ins in instrs:
+        t = type(ins)
+        if t is ns.core.SetInstruction:
+            regs[ins.reg] = ins.imm.value
+        elif t is ns.core.QFreeInstruction:
+            pass
+        elif t is ns.core.QAllocInstruction:
+            rho = _hist_channel(rho, "u", [regs[ins.reg]], _UNSPEC)
+        elif t is ns.core.InitInstruction:
+            rho = _hist_channel(rho, "init", [regs[ins.reg]])
+        elif spec_side and t in ns.g1.values():
+            g = [k for k, v in ns.g1.items() if v is t][0]
+            rho = _hist_channel(rho, "u", [regs[ins.reg]], qc.GATES[g])
+        elif spec_side and t in ns.rot.values():
+            ax = [k for k, v in ns.rot.items() if v is t][0]
+            rho = _hist_channel(rho, "u", [regs[ins.reg]], qc.rot_nd(ax, ins.angle_num.value, ins.angle_denom.value))
+        elif spec_side and t in ns.g2.values():
+            g = [k for k, v in ns.g2.items() if v is t][0]
+            rho = _hist_channel(rho, "u", [regs[ins.reg0], regs[ins.reg1]], qc.GATES[g])
+        elif not spec_side and t in ns.nvrot:
+            rho = _hist_channel(rho, "u", [regs[ins.reg]], qc.rot_nd(ns.nvrot[t], ins.angle_num.value, ins.angle_denom.value))
+        elif not spec_side and t in ns.nvcrot:
+            if regs[ins.reg0] == regs[ins.reg1]:
+                return "two-qubit instruction on one qubit: " + str(ins)
+            rho = _hist_channel(rho, "u", [regs[ins.reg0], regs[ins.reg1]],
+                                qc.crot_nd(ns.nvcrot[t], ins.angle_num.value, ins.angle_denom.value))
+        else:
+            return "instruction not understood: " + str(ins)
+    return rho
+
+
+def hist_case(ctx, ns, steps, hw, psi_seed):
+    """True if the history fails now (a violation was reported)."""
+    import nv_decomp as nd
+    r = np.random.default_rng(psi_seed)
+    v = r.normal(size=2 ** HIST_NQ) + 1j * r.normal(size=2 ** HIST_NQ)
+    v = v / np.linalg.norm(v)
+    rho0 = np.outer(v, v.conj())
+    instrs = hist_instrs(ns, steps)
+    try:
+        out = nd.transpile(ns, instrs, hw)
+    except Exception as e:  # noqa
+        ctx.violation("the NV transpiler refuses a subroutine made of gates it accepts one by one",
+                      dict(kind="history", steps=steps, hw=hw, psi_seed=psi_seed, error=type(e).__name__ + ": " + str(e)[:200]),
+                      key="C07:history")
+        return True
+    # the transpiler may rewrite operand fields of the instruction objects it was given: the
+    # specification side runs on freshly built instructions
+    want = hist_run(ns, hist_instrs(ns, steps), rho0, True)
+    got = hist_run(ns, out, rho0, False)
+    if isinstance(want, str):
+        raise RuntimeError("history generator produced something the oracle does not know: " + want)
+    if isinstance(got, str):
+        ctx.coverage["history_cases_skipped"] = ctx.coverage.get("history_cases_skipped", 0) + 1
+        ctx.coverage["history_skip_reason"] = got[:200]
+        return False
+    dist = float(np.abs(want - got).max())
+    if dist > 1e-8:
+        ctx.violation("inside a subroutine history the emitted NV sequences do not implement the gates (or a borrowed "
+                      "electron is not returned to its prior state): final states of original and transpiled differ",
+                      dict(kind="history", steps=steps, hw=hw, psi_seed=psi_seed, max_entry_difference=dist,
+                           emitted=[str(i) for i in out][:120],
+                           semantics="density matrix over ids 0..2; init = reset; qalloc = the same fixed unitary in both runs "
+                                     "(unspecified content); qfree = nothing; gates by the specification matrices"),
+                      key="C07:history")
+        return True
+    return False
+
+
+def history_oracle(ctx):
+    """Gates are not only expanded alone: the same expansion must be right wherever the gate stands in a
+    subroutine (an expansion that depends on what the transpiler saw earlier - electron initialised, freed,
+    allocated again - is checked on histories of those events)."""
+    import nv_decomp as nd
+    ns = nd.load(ctx.repo)
+    n = 150 if ctx.tier == "quick" else 4000
+    stats = {}
+    for i in range(n):
+        steps = hist_steps(ctx.rng, ctx.rng.randint(3, 9))
+        hw = bool(i % 2)
+        for st in steps:
+            stats[st[0]] = stats.get(st[0], 0) + 1
+        ctx.note_case(("history", str(steps), hw))
+        if hist_case(ctx, ns, steps, hw, i):
+            break
+    ctx.coverage["history_cases"] = n
+    ctx.coverage["stream_distribution_history_steps"] = stats
 
 # ------------------------------------------------------------------ main
 def run(ctx):
@@ -361,6 +522,7 @@ def run(ctx):
     else:
         search(ctx, data, rows)
     check_published(ctx, spec, data)
+    history_oracle(ctx)
     ctx.finish()
 
 
@@ -444,7 +606,11 @@ def replay(ctx, path):
         # the replay names a broken obligation, not an input: re-run the whole check
         print("replay: no concrete input recorded (broken obligation); running the full check")
         return run(ctx)
-    if rec.get("kind") == "rot-sweep":
+    if rec.get("kind") == "history":
+        import nv_decomp as nd
+        bad = hist_case(ctx, nd.load(ctx.repo), rec["steps"], rec["hw"], rec["psi_seed"])
+        print("replay: history", "FAILS" if bad else "ok")
+    elif rec.get("kind") == "rot-sweep":
         import nv_decomp as nd
         ns = nd.load(ctx.repo)
         ax, n, d, hw = rec["axis"], rec["n"], rec["d"], rec["hw"]
